@@ -131,6 +131,11 @@ pub fn gen_program(c: &mut Choices, cfg: &GenCfg) -> Program {
         error_budget: 0,
     };
     g.error_budget = if cfg.errors > 0 && g.c.chance(40) { 1 } else { 0 };
+    // avoid switch for the known finding "statement-level values stay on the VM stack": three
+    // quarters of the programs contain no bare value card in statement position at all
+    if !g.c.chance(64) {
+        g.cfg.expr_stmt = 0;
+    }
     g.all_globals.insert(SINK.into());
     let mut funcs = vec![];
     // callee bodies get their share of the budget first so that main is not the only real body
